@@ -431,3 +431,30 @@ def agrees(got, allowed_values, rel=1e-9, abs_=1e-12):
         elif abs(got - w) <= max(abs_, rel * abs(w)):
             return True
     return False
+
+
+def why_undefined(est, flat, letters=NUC):
+    """structural reason for which the closed form of `est` is undefined on this count matrix"""
+    n = sum(flat)
+    if n == 0:
+        return "no comparable column"
+    m, r = _square(flat)
+    if est == "jc69":
+        return "p >= 3/4"
+    if est == "tn93":
+        ix = {c: i for i, c in enumerate(letters.replace("U", "T"))}
+        A, G, C, T = ix["A"], ix["G"], ix["C"], ix["T"]
+        g = [Fraction(sum(m[i]) + sum(m[k][i] for k in range(r)), 2 * n) for i in range(r)]
+        if g[A] * g[G] == 0 or g[C] * g[T] == 0:
+            return "a base is absent from both sequences"
+        gR, gY = g[A] + g[G], g[C] + g[T]
+        P1 = (m[A][G] + m[G][A]) / n
+        P2 = (m[C][T] + m[T][C]) / n
+        Q = (sum(m[i][j] for i in (A, G) for j in (C, T)) + sum(m[i][j] for i in (C, T) for j in (A, G))) / n
+        args = [1 - gR / (2 * g[A] * g[G]) * P1 - Q / (2 * gR), 1 - gY / (2 * g[T] * g[C]) * P2 - Q / (2 * gY),
+                1 - Q / (2 * gR * gY)]
+        return "a log argument is exactly 0" if min(args) == 0 else "a log argument is negative"
+    if est in ("paralinear", "logdet", "logdet_classic"):
+        d = _joint_det(tuple(flat))[0]
+        return "joint matrix exactly singular" if d == 0 else "determinant negative"
+    return "undefined"
